@@ -277,3 +277,35 @@ def _h_reaction_rendering(n: int, m: int) -> bool:
     if e.unicode(_SUBS) != co(n) + "U[A] ⇌ " + co(m) + "U[C]" or e.html(_SUBS) != co(n) + "<b>A</b> &harr; " + co(m) + "<b>C</b>":
         return False
     return True
+
+
+def _h_primes_caged(n: int) -> bool:
+    """
+    pre: 1 <= n <= NMAX
+    post: _
+    """
+    s = str(n)
+    ok = _all_fmts("Na'" + "+", lambda fmt: "Na'" + sup_(fmt, "+"))
+    ok = ok and _all_fmts("H" + s + "O*", lambda fmt: "H" + sub_(fmt, s) + "O*")
+    return ok and _all_fmts("Li@C" + s, lambda fmt: "Li@C" + sub_(fmt, s))
+
+
+def _h_braces(q: int) -> bool:
+    """
+    pre: 1 <= q <= 9
+    post: _
+    """
+    # curly braces are escaped in LaTeX only, through re.sub with a back-reference: CrossHair's model of that call gave
+    # counterexamples that do not replay, so only the unicode / html renderers are traced here
+    ok = RENDER["unicode"]("{(H2O)2OH}12+" + str(q)) == "{(H" + sub_("unicode", "2") + "O)" + sub_("unicode", "2") + "OH}" + sub_("unicode", "12") + charge_("unicode", q)
+    ok = ok and RENDER["html"]("{(H2O)2OH}12+" + str(q)) == "{(H" + sub_("html", "2") + "O)" + sub_("html", "2") + "OH}" + sub_("html", "12") + charge_("html", q)
+    return ok  # the LaTeX escaping of braces is compared on concrete formulas in checks/C13.py::task_species
+
+
+def _h_radical_with_count_and_charge(n: int) -> bool:
+    """
+    pre: 2 <= n <= 99
+    post: _
+    """
+    s = str(n)
+    return _all_fmts(".NO" + s + "-" + s, lambda fmt: prefix_(fmt, ".") + "NO" + sub_(fmt, s) + charge_(fmt, -n))
